@@ -131,9 +131,20 @@ class Deduping(DNAGenerator):
     self.generator.feedback(dna, reward)
     self._add_dna_to_cache(dna, reward)
 
+  def recover(self, history) -> None:
+    """Recovers the inner generator through its own `recover`, then the cache."""
+    history = list(history)
+    self.generator.recover(history)
+    super().recover(history)
+
   def _replay(self, trial_id: int, dna: DNA, reward: Any) -> None:
-    self.generator._replay(trial_id, dna, reward)  # pylint: disable=protected-access
-    self._add_dna_to_cache(dna, reward)
+    # Mirror what `_propose`/`_feedback` record: a `None` entry per proposal
+    # when no feedback is needed, otherwise only rewards that were fed back.
+    del trial_id
+    if not self.needs_feedback:
+      self._add_dna_to_cache(dna, None)
+    elif reward is not None:
+      self._add_dna_to_cache(dna, reward)
 
   def _add_dna_to_cache(
       self, dna: DNA, reward: Union[None, float, Tuple[float]]) -> None:
